@@ -14,7 +14,12 @@
 //     assigned variables in a tuple; an `if` whose body returns becomes `if … then … else rest`;
 //     a `for init; cond; post { body }` loop becomes a recursive function over the variables it assigns with a
 //     fuel argument (64: every translated loop shifts an int64 or counts its bits).
-//   - slices are lists; `a[i]` is `Go.index a i` (0 outside the bounds, where Go panics).
+//   - slices are lists; `a[i]` is `Go.index a i` (0 outside the bounds, where Go panics), `a[i] = v` is `Go.set a i v`.
+//   - a struct reached through a pointer parameter (or the receiver) and assigned through (`p.A.B = e`,
+//     `h.counts[i] += n`) is threaded functionally: `let p := { p with A.B := e }`; the function returns its
+//     explicit results followed by the pointer parameters it assigns, in declaration order.  A single `error`
+//     result becomes `Option`: `return nil` is `some (…)`, any other return is `none` (state discarded: the
+//     translated functions return errors before they assign anything).  `time.Time` and `time.Duration` are `Int`.
 // Anything else (calls outside the translated set, break/continue, defer, goroutines, switch, range, …) is
 // refused: the function is emitted as a comment and the tie theorem that mentions it no longer builds.
 package main
@@ -62,6 +67,9 @@ type translator struct {
 	aux   []string
 	nloop int
 	named []string // named results
+	muts  []string // pointer parameters the function assigns through, in declaration order
+	isErr bool     // the single result is `error`
+	rbool []bool   // explicit results that are bool
 }
 
 func leanType(e ast.Expr, structs map[string]*ast.StructType) string {
@@ -75,6 +83,10 @@ func leanType(e ast.Expr, structs map[string]*ast.StructType) string {
 		}
 		if _, ok := structs[t.Name]; ok {
 			return t.Name
+		}
+	case *ast.SelectorExpr:
+		if id, ok := t.X.(*ast.Ident); ok && id.Name == "time" && (t.Sel.Name == "Time" || t.Sel.Name == "Duration") {
+			return "Int"
 		}
 	case *ast.StarExpr:
 		return leanType(t.X, structs)
@@ -142,6 +154,9 @@ func (t *translator) expr(e ast.Expr, sc scope) string {
 	case *ast.Ident:
 		if _, ok := sc[x.Name]; ok {
 			return lname(x.Name)
+		}
+		if x.Name == "true" || x.Name == "false" {
+			return x.Name
 		}
 		bail(x.Pos(), "unknown identifier %s", x.Name)
 	case *ast.SelectorExpr:
@@ -219,6 +234,9 @@ func (t *translator) expr(e ast.Expr, sc scope) string {
 func (t *translator) typeOf(e ast.Expr, sc scope) string {
 	switch x := e.(type) {
 	case *ast.Ident:
+		if x.Name == "true" || x.Name == "false" {
+			return "Bool"
+		}
 		return sc[x.Name]
 	case *ast.ParenExpr:
 		return t.typeOf(x.X, sc)
@@ -232,6 +250,28 @@ func (t *translator) typeOf(e ast.Expr, sc scope) string {
 					}
 				}
 			}
+		}
+	}
+	return "Int"
+}
+
+// typeOfExpr: the Lean type of an expression (struct values and Bool are tracked, everything else is Int)
+func (t *translator) typeOfExpr(e ast.Expr, sc scope) string {
+	switch x := e.(type) {
+	case *ast.Ident, *ast.SelectorExpr:
+		if ty := t.typeOf(e, sc); ty != "" {
+			return ty
+		}
+	case *ast.ParenExpr:
+		return t.typeOfExpr(x.X, sc)
+	case *ast.UnaryExpr:
+		if x.Op == token.NOT {
+			return "Bool"
+		}
+	case *ast.BinaryExpr:
+		switch x.Op {
+		case token.LAND, token.LOR, token.EQL, token.NEQ, token.LSS, token.LEQ, token.GTR, token.GEQ:
+			return "Bool"
 		}
 	}
 	return "Int"
@@ -258,7 +298,70 @@ func (t *translator) cond(e ast.Expr, sc scope) string {
 			return "(" + t.expr(x.X, sc) + " " + op + " " + t.expr(x.Y, sc) + ")"
 		}
 	}
+	switch e.(type) {
+	case *ast.Ident, *ast.SelectorExpr:
+		if t.typeOf(e, sc) == "Bool" {
+			return "(" + t.expr(e, sc) + " = true)"
+		}
+	}
 	bail(e.Pos(), "unsupported condition %T", e)
+	return ""
+}
+
+// rootVar: the local variable at the root of a selector / index chain (p.A.B, h.counts[i])
+func rootVar(e ast.Expr) (string, bool) {
+	switch x := e.(type) {
+	case *ast.Ident:
+		return x.Name, true
+	case *ast.SelectorExpr:
+		return rootVar(x.X)
+	case *ast.IndexExpr:
+		return rootVar(x.X)
+	case *ast.ParenExpr:
+		return rootVar(x.X)
+	case *ast.StarExpr:
+		return rootVar(x.X)
+	}
+	return "", false
+}
+
+// fieldPath: p.A.B -> ("p", "A.B")
+func fieldPath(e ast.Expr) (string, string, bool) {
+	switch x := e.(type) {
+	case *ast.Ident:
+		return x.Name, "", true
+	case *ast.SelectorExpr:
+		r, p, ok := fieldPath(x.X)
+		if !ok {
+			return "", "", false
+		}
+		if p == "" {
+			return r, lname(x.Sel.Name), true
+		}
+		return r, p + "." + lname(x.Sel.Name), true
+	}
+	return "", "", false
+}
+
+// assign translates `lhs = rhs` for a local variable, a field path or a slice element of a field
+func (t *translator) assign(lhs ast.Expr, rhs string, sc scope) string {
+	switch x := lhs.(type) {
+	case *ast.Ident:
+		return "let " + lname(x.Name) + " := " + rhs + ";\n  "
+	case *ast.SelectorExpr:
+		if r, p, ok := fieldPath(x); ok && p != "" {
+			if _, known := sc[r]; known {
+				return "let " + lname(r) + " := { " + lname(r) + " with " + p + " := " + rhs + " };\n  "
+			}
+		}
+	case *ast.IndexExpr:
+		if r, p, ok := fieldPath(x.X); ok && p != "" {
+			if _, known := sc[r]; known {
+				return "let " + lname(r) + " := { " + lname(r) + " with " + p + " := (Go.set " + t.expr(x.X, sc) + " " + t.expr(x.Index, sc) + " " + rhs + ") };\n  "
+			}
+		}
+	}
+	bail(lhs.Pos(), "unsupported assignment target")
 	return ""
 }
 
@@ -271,21 +374,21 @@ func assigned(stmts []ast.Stmt, sc scope, acc map[string]bool) {
 				continue
 			}
 			for _, l := range x.Lhs {
-				if id, ok := l.(*ast.Ident); ok {
-					if _, ok := sc[id.Name]; ok {
-						acc[id.Name] = true
+				if r, ok := rootVar(l); ok {
+					if _, ok := sc[r]; ok {
+						acc[r] = true
 					}
 				} else {
-					bail(l.Pos(), "assignment to something that is not a local variable")
+					bail(l.Pos(), "unsupported assignment target")
 				}
 			}
 		case *ast.IncDecStmt:
-			if id, ok := x.X.(*ast.Ident); ok {
-				if _, ok := sc[id.Name]; ok {
-					acc[id.Name] = true
+			if r, ok := rootVar(x.X); ok {
+				if _, ok := sc[r]; ok {
+					acc[r] = true
 				}
 			} else {
-				bail(x.Pos(), "++/-- on something that is not a local variable")
+				bail(x.Pos(), "unsupported ++/-- target")
 			}
 		case *ast.IfStmt:
 			if x.Init != nil {
@@ -417,19 +520,24 @@ func (t *translator) stmts(list []ast.Stmt, sc scope, fall func(sc scope) string
 		if len(x.Lhs) != 1 || len(x.Rhs) != 1 {
 			bail(x.Pos(), "multiple assignment")
 		}
-		id, ok := x.Lhs[0].(*ast.Ident)
-		if !ok {
-			bail(x.Pos(), "assignment to something that is not a local variable")
-		}
-		rhs := t.expr(x.Rhs[0], sc)
-		sc = sc.clone()
+		lhs := x.Lhs[0]
+		id, isIdent := lhs.(*ast.Ident)
+		rhs := ""
+		nsc := sc.clone()
 		switch x.Tok {
 		case token.DEFINE:
-			sc[id.Name] = "Int"
-		case token.ASSIGN:
-			if _, ok := sc[id.Name]; !ok {
-				bail(x.Pos(), "assignment to unknown variable %s", id.Name)
+			if !isIdent {
+				bail(x.Pos(), ":= with a non-identifier")
 			}
+			rhs = t.expr(x.Rhs[0], sc)
+			nsc[id.Name] = t.typeOfExpr(x.Rhs[0], sc)
+		case token.ASSIGN:
+			if isIdent {
+				if _, ok := sc[id.Name]; !ok {
+					bail(x.Pos(), "assignment to unknown variable %s", id.Name)
+				}
+			}
+			rhs = t.expr(x.Rhs[0], sc)
 		default:
 			ops := map[token.Token]token.Token{token.ADD_ASSIGN: token.ADD, token.SUB_ASSIGN: token.SUB, token.MUL_ASSIGN: token.MUL,
 				token.SHL_ASSIGN: token.SHL, token.SHR_ASSIGN: token.SHR, token.OR_ASSIGN: token.OR, token.AND_ASSIGN: token.AND,
@@ -438,19 +546,16 @@ func (t *translator) stmts(list []ast.Stmt, sc scope, fall func(sc scope) string
 			if !ok {
 				bail(x.Pos(), "unsupported assignment operator")
 			}
-			rhs = t.expr(&ast.BinaryExpr{X: id, Op: op, Y: x.Rhs[0]}, sc)
+			rhs = t.expr(&ast.BinaryExpr{X: lhs, Op: op, Y: x.Rhs[0]}, sc)
 		}
-		return "let " + lname(id.Name) + " := " + rhs + ";\n  " + t.stmts(rest, sc, fall)
+		return t.assign(lhs, rhs, sc) + t.stmts(rest, nsc, fall)
 	case *ast.IncDecStmt:
-		id, ok := x.X.(*ast.Ident)
-		if !ok {
-			bail(x.Pos(), "++/-- on something that is not a local variable")
-		}
-		op := " + 1"
+		op := token.ADD
 		if x.Tok == token.DEC {
-			op = " - 1"
+			op = token.SUB
 		}
-		return "let " + lname(id.Name) + " := (" + lname(id.Name) + op + ");\n  " + t.stmts(rest, sc, fall)
+		rhs := t.expr(&ast.BinaryExpr{X: x.X, Op: op, Y: &ast.BasicLit{Kind: token.INT, Value: "1"}}, sc)
+		return t.assign(x.X, rhs, sc) + t.stmts(rest, sc, fall)
 	case *ast.IfStmt:
 		if x.Init != nil {
 			bail(x.Pos(), "if with an init statement")
@@ -527,7 +632,7 @@ func (t *translator) stmts(list []ast.Stmt, sc scope, fall func(sc scope) string
 		}
 		for _, v := range vars {
 			sargs = append(sargs, lname(v))
-			stys = append(stys, "Int")
+			stys = append(stys, sc[v])
 		}
 		body := append([]ast.Stmt{}, x.Body.List...)
 		if x.Post != nil {
@@ -550,21 +655,60 @@ func (t *translator) stmts(list []ast.Stmt, sc scope, fall func(sc scope) string
 	return ""
 }
 
-func (t *translator) ret(x *ast.ReturnStmt, sc scope) string {
-	if len(x.Results) == 0 {
-		if len(t.named) == 0 {
-			bail(x.Pos(), "bare return without named results")
-		}
-		return tuple(t.named)
-	}
-	var l []string
-	for _, r := range x.Results {
-		l = append(l, t.expr(r, sc))
+// result: the value a function hands back: explicit results followed by the pointer parameters it assigns
+func (t *translator) result(explicit []string) string {
+	l := append([]string{}, explicit...)
+	for _, m := range t.muts {
+		l = append(l, lname(m))
 	}
 	if len(l) == 1 {
 		return l[0]
 	}
 	return "(" + strings.Join(l, ", ") + ")"
+}
+
+func (t *translator) ret(x *ast.ReturnStmt, sc scope) string {
+	if t.isErr {
+		if len(x.Results) == 1 {
+			if id, ok := x.Results[0].(*ast.Ident); ok && id.Name == "nil" {
+				return "some " + t.result(nil)
+			}
+			return "none"
+		}
+		bail(x.Pos(), "unsupported return in a function returning error")
+	}
+	if len(x.Results) == 0 {
+		var l []string
+		for _, n := range t.named {
+			l = append(l, lname(n))
+		}
+		if len(l) == 0 && len(t.muts) == 0 {
+			bail(x.Pos(), "bare return in a function without results")
+		}
+		return t.result(l)
+	}
+	var l []string
+	for i, r := range x.Results {
+		if i < len(t.rbool) && t.rbool[i] {
+			l = append(l, t.boolExpr(r, sc))
+		} else {
+			l = append(l, t.expr(r, sc))
+		}
+	}
+	return t.result(l)
+}
+
+func (t *translator) boolExpr(e ast.Expr, sc scope) string {
+	switch x := e.(type) {
+	case *ast.Ident:
+		if x.Name == "true" || x.Name == "false" {
+			return x.Name
+		}
+		return t.expr(e, sc)
+	case *ast.SelectorExpr:
+		return t.expr(e, sc)
+	}
+	return "(decide " + t.cond(e, sc) + ")"
 }
 
 // need: make sure the definition of k precedes the current one
@@ -573,9 +717,9 @@ func (t *translator) need(k string) {
 		return
 	}
 	// save the per-function state, translate the callee, restore
-	fn, aux, nloop, named := t.fn, t.aux, t.nloop, t.named
+	fn, aux, nloop, named, muts, isErr, rbool := t.fn, t.aux, t.nloop, t.named, t.muts, t.isErr, t.rbool
 	t.function(k)
-	t.fn, t.aux, t.nloop, t.named = fn, aux, nloop, named
+	t.fn, t.aux, t.nloop, t.named, t.muts, t.isErr, t.rbool = fn, aux, nloop, named, muts, isErr, rbool
 	if msg, bad := t.failed[k]; bad {
 		bail(token.NoPos, "depends on %s, which was not translated (%s)", k, msg)
 	}
@@ -587,7 +731,7 @@ func (t *translator) function(k string) {
 	}
 	t.done[k] = true
 	fd := t.funcs[k]
-	t.fn, t.aux, t.nloop, t.named = k, nil, 0, nil
+	t.fn, t.aux, t.nloop, t.named, t.muts, t.isErr, t.rbool = k, nil, 0, nil, nil, false, nil
 	defer func() {
 		if r := recover(); r != nil {
 			u, ok := r.(unsupported)
@@ -600,6 +744,8 @@ func (t *translator) function(k string) {
 	}()
 	sc := scope{}
 	var binders []string
+	var ptrs []string // pointer parameters to translated structs, in declaration order
+	isPtr := func(e ast.Expr) bool { _, ok := e.(*ast.StarExpr); return ok }
 	if fd.Recv != nil && len(fd.Recv.List) == 1 && len(fd.Recv.List[0].Names) == 1 {
 		rt := leanType(fd.Recv.List[0].Type, t.structs)
 		if rt == "" {
@@ -608,6 +754,9 @@ func (t *translator) function(k string) {
 		n := fd.Recv.List[0].Names[0].Name
 		sc[n] = rt
 		binders = append(binders, fmt.Sprintf("(%s : %s)", lname(n), rt))
+		if isPtr(fd.Recv.List[0].Type) {
+			ptrs = append(ptrs, n)
+		}
 	}
 	for _, p := range fd.Type.Params.List {
 		ty := leanType(p.Type, t.structs)
@@ -617,38 +766,88 @@ func (t *translator) function(k string) {
 		for _, n := range p.Names {
 			sc[n.Name] = ty
 			binders = append(binders, fmt.Sprintf("(%s : %s)", lname(n.Name), ty))
+			if isPtr(p.Type) {
+				ptrs = append(ptrs, n.Name)
+			}
 		}
 	}
+	// which pointer parameters does the body assign through?
+	acc := map[string]bool{}
+	assigned(fd.Body.List, sc, acc)
 	var rtys []string
+	for _, p := range ptrs {
+		if acc[p] {
+			t.muts = append(t.muts, p)
+		}
+	}
+	for k := range acc {
+		isp := false
+		for _, p := range ptrs {
+			if p == k {
+				isp = true
+			}
+		}
+		if !isp {
+			if _, isStruct := t.structs[sc[k]]; isStruct {
+				bail(fd.Pos(), "assignment through the by-value struct parameter %s", k)
+			}
+		}
+	}
 	pre := ""
 	if fd.Type.Results != nil {
 		for _, r := range fd.Type.Results.List {
-			ty := leanType(r.Type, t.structs)
-			if ty != "Int" {
-				bail(r.Pos(), "result type is not an integer")
+			if id, ok := r.Type.(*ast.Ident); ok && id.Name == "error" && len(fd.Type.Results.List) == 1 && len(r.Names) == 0 {
+				t.isErr = true
+				continue
 			}
-			if len(r.Names) == 0 {
+			ty := leanType(r.Type, t.structs)
+			if ty != "Int" && ty != "Bool" {
+				bail(r.Pos(), "result type is neither an integer nor a bool")
+			}
+			cnt := len(r.Names)
+			if cnt == 0 {
+				cnt = 1
+			}
+			for i := 0; i < cnt; i++ {
 				rtys = append(rtys, ty)
+				t.rbool = append(t.rbool, ty == "Bool")
 			}
 			for _, n := range r.Names {
-				rtys = append(rtys, ty)
 				t.named = append(t.named, n.Name)
-				sc[n.Name] = "Int"
-				pre += "let " + lname(n.Name) + " : Int := 0;\n  "
+				sc[n.Name] = ty
+				zero := "0"
+				if ty == "Bool" {
+					zero = "false"
+				}
+				pre += "let " + lname(n.Name) + " : " + ty + " := " + zero + ";\n  "
 			}
 		}
 	}
+	for _, m := range t.muts {
+		rtys = append(rtys, sc[m])
+	}
 	if len(rtys) == 0 {
-		bail(fd.Pos(), "no result")
+		bail(fd.Pos(), "no result and no assigned pointer parameter")
+	}
+	rty := strings.Join(rtys, " × ")
+	if t.isErr {
+		rty = "Option (" + rty + ")"
 	}
 	fall := func(scope) string {
-		if len(t.named) == 0 {
+		if t.isErr {
+			bail(fd.Pos(), "control reaches the end of a function returning error")
+		}
+		var l []string
+		for _, n := range t.named {
+			l = append(l, lname(n))
+		}
+		if len(l) == 0 && len(t.muts) == 0 {
 			bail(fd.Pos(), "control reaches the end of a function without named results")
 		}
-		return tuple(t.named)
+		return t.result(l)
 	}
 	body := t.stmts(fd.Body.List, sc, fall)
-	def := fmt.Sprintf("def %s %s : %s :=\n  %s%s\n", t.defName(k), strings.Join(binders, " "), strings.Join(rtys, " × "), pre, body)
+	def := fmt.Sprintf("def %s %s : %s :=\n  %s%s\n", t.defName(k), strings.Join(binders, " "), rty, pre, body)
 	t.out = append(t.out, strings.Join(t.aux, "\n"))
 	t.out = append(t.out, def)
 }
@@ -665,7 +864,10 @@ var codeGroups = []codeGroup{
 		funcs: []string{"bitLen", "Histogram.getBucketIndex", "Histogram.getSubBucketIdx", "Histogram.countsIndex",
 			"Histogram.valueFromIndex", "Histogram.countsIndexFor", "Histogram.sizeOfEquivalentValueRange",
 			"Histogram.lowestEquivalentValue", "Histogram.nextNonEquivalentValue", "Histogram.highestEquivalentValue",
-			"Histogram.medianEquivalentValue", "Histogram.getCountAtIndex"}},
+			"Histogram.medianEquivalentValue", "Histogram.getCountAtIndex", "Histogram.RecordValues"}},
+	{file: "events/performance.go", namespace: "Events",
+		structs: []string{"PerformanceCounters", "PerformanceTimers", "PerformanceGauges", "Performance"},
+		funcs:   []string{"Performance.Add"}},
 	{file: "util.go", namespace: "Util", funcs: []string{"getOffset"}},
 }
 
